@@ -134,6 +134,23 @@ def run_case(case, ctx):
             axes_equal(ctx, "axis-roundtrip", w, w2, det)
             axes_equal(ctx, "axis-roundtrip", t, t2, dict(det, direction="t->w->t (derived)"))
             ctx.sub(("axis", "w-first", N, atype, sc), nontrivial=N >= 3)
+            # the same mappings made while an energy-units context is active (frequency axes are units managed): the axes obtained are
+            # the same physical axes (compared outside the context)
+            from qrv.oracles import units as UU
+            unit = ["1/cm", "eV", "THz", "meV"][(N + (0 if atype == "complete" else 1) + (0 if sc == "natural" else 2)) % 4]
+            fac = UU.E_FAC[unit]
+            with ctx.lib("axis mappings inside energy_units(%s)" % unit):
+                with qr.energy_units(unit):
+                    wu = qr.FrequencyAxis(wstart / fac, N, dw / fac, atype=atype)
+                    tu = wu.get_TimeAxis()
+                    wu2 = tu.get_FrequencyAxis()
+                    tu2 = wu2.get_TimeAxis()
+            detu = dict(det, units_context=unit)
+            axes_equal(ctx, "axis-roundtrip", w, wu, dict(detu, what2="axis defined in the context vs defined in internal units"))
+            axes_equal(ctx, "axis-roundtrip", t, tu, dict(detu, direction="get_TimeAxis inside the context vs outside"))
+            axes_equal(ctx, "axis-roundtrip", wu, wu2, dict(detu, direction="w->t->w inside the context"))
+            axes_equal(ctx, "axis-roundtrip", tu, tu2, dict(detu, direction="t->w->t inside the context"))
+            ctx.sub(("axis", "w-first-in-context", N, atype, sc, unit), nontrivial=N >= 3)
 
     # ------------------------------------------------------------ transforms
     if case["cls"] == "large-N":
